@@ -118,12 +118,17 @@ def lean_audit(module: str, theorems: list[str]) -> dict:
     """Checks every theorem exists in the compiled module and depends only on the allowed axioms."""
     audit_dir = os.path.join(LEAN_DIR, ".lake", "audit")
     os.makedirs(audit_dir, exist_ok=True)
-    path = os.path.join(audit_dir, module.replace(".", "_") + ".lean")
+    # one scratch file per process: several checks share a module and may run at the same time
+    path = os.path.join(audit_dir, f"{module.replace('.', '_')}_{os.getpid()}.lean")
     with open(path, "w", encoding="utf-8") as f:
         f.write(f"import {module}\n")
         for t in theorems:
             f.write(f"#print axioms {t}\n")
     r = run(["lake", "env", "lean", path], cwd=LEAN_DIR)
+    try:
+        os.remove(path)
+    except OSError:
+        pass
     text = r.stdout + r.stderr
     result = {}
     # messages look like: 'JS.thm' depends on axioms: [propext, Quot.sound]   or   'JS.thm' does not depend on any axioms
@@ -227,6 +232,10 @@ class PropertyCheck:
         # one scenario in six (chosen by its text; never a corpus entry): a SIBLING dispatcher on another instance with the same
         # operation ids is kept busy in the same process between the scenario's commands - nothing of it may leak
         import zlib as _zlib
+        # one scenario in eight: the operations are instances of a user subclass carrying data of its own (release dates, due dates,
+        # weights, ...) that is none of the library's business
+        _impl_mod.OP_SUBCLASS = bool(scenario.meta.get("op_subclass", "corpus" not in scenario.meta and
+                                                       _zlib.crc32("\n".join(scenario.lines[:40]).encode()) % 8 == 3))
         _impl_mod.SIBLING = bool(scenario.meta.get("sibling", "corpus" not in scenario.meta and
                                                    _zlib.crc32("\n".join(scenario.lines[:40]).encode()) % 6 == 0))
         impl = self.make_impl(scenario)
@@ -517,8 +526,8 @@ def main(check: PropertyCheck, argv: list[str]) -> int:
         "coverage": {
             "obligations": obligations,
             "discharged": discharged,
-            "checker_cmd": f"cd lean && lake build {check.LEAN_MODULE} && lake env lean .lake/audit/"
-                           f"{check.LEAN_MODULE.replace('.', '_')}.lean  (#print axioms of every property theorem)"
+            "checker_cmd": f"cd lean && lake build {check.LEAN_MODULE} && lake env lean <scratch file importing the module with one "
+                           f"`#print axioms` line per property theorem>"
                            + ("; lake env leanchecker " + check.LEAN_MODULE if tier == "thorough" else ""),
             "trusted_base": TRUSTED_BASE + check.ASSUMPTIONS,
             "theorems": audit["theorems"],
